@@ -657,6 +657,8 @@ class Interp:
                 return AI(ty, 0, 0)
             if last == "BITS":
                 return AI(ty, TY[t0][0], TY[t0][0])
+            if last == "BYTES":
+                return AI(ty, TY[t0][0] // 8, TY[t0][0] // 8)
             if last == "MAX":
                 return AI(ty, tmax(t0), tmax(t0))
             if last == "MIN":
@@ -743,8 +745,8 @@ class Interp:
                 r = fr.locals.get(pl["l"])
                 if isinstance(r, Ref):
                     return Ref(r.frame, r.local, list(r.proj) + list(pl["proj"][1:]))
-                if len(pl["proj"]) == 1:
-                    return r
+                if len(pl["proj"]) == 1 or isinstance(r, Opaque):
+                    return r            # a reference into an opaque object (a stream, a backend) stays opaque
                 raise Unsupported("reference through %r" % (r,))
             return Ref(fr, pl["l"], pl["proj"])
         if k == "discr":
